@@ -6,7 +6,7 @@
 (* lines, the --json and --oc extracts).  The run conforms when it matches *)
 (* one of the outcomes Cli!Allowed(cfg) accepts.                           *)
 (***************************************************************************)
-EXTENDS Cli, Json, IOUtils, TLC
+EXTENDS Cli, MetaDefs, Json, IOUtils, TLC
 Rec == ndJsonDeserialize(IOEnv.TRACE)
 VARIABLES l, nbad
 vars == <<l, nbad>>
@@ -40,6 +40,37 @@ OkClauses(e, o) ==
      \cup ok(o.fp.origin = "archivo" \/ (Has_(ob.oc, "CTE_LOCALIZACION") /\ ob.oc.CTE_LOCALIZACION = o.fp.param),
             "location_not_recorded_in_metadata")
 
+(***************************************************************************)
+(* The whole metadata block of the emitted components (--oc) against       *)
+(* spec/MetaDefs.tla: it is the block of the input (legacy key names       *)
+(* mapped, every line kept in its place, repeated keys too) after          *)
+(* set_meta of CTE_RED1, CTE_RED2 (when given), CTE_LOCALIZACION (when the *)
+(* factors come from a location), CTE_AREAREF and CTE_KEXP, in that order. *)
+(* Values are projected by the driver: [kind, n, t, tri] - a number in     *)
+(* thousandths, a text, or a triple of thousandths.  Reported as DRIFT     *)
+(* (conformance); the clauses of the property are in OkClauses.            *)
+(***************************************************************************)
+Num(x) == [kind |-> "num", n |-> x, t |-> "", tri |-> <<>>]
+Txt(x) == [kind |-> "text", n |-> 0, t |-> x, tri |-> <<>>]
+Tri(x) == [kind |-> "triple", n |-> 0, t |-> "", tri |-> x]
+SameValue(a, b) ==
+  /\ a.kind = b.kind
+  /\ CASE a.kind = "num" -> a.n - b.n \in -5..5          \* two printed decimals
+       [] a.kind = "text" -> a.t = b.t
+       [] OTHER -> Len(a.tri) = Len(b.tri) /\ \A i \in 1..Len(a.tri) : a.tri[i] - b.tri[i] \in -1..1
+SameBlock(a, b) == Len(a) = Len(b) /\ \A i \in 1..Len(a) : a[i][1] = b[i][1] /\ SameValue(a[i][2], b[i][2])
+Updates(o) ==
+  (IF o.red1given THEN << <<"CTE_RED1", Tri(o.red1)>> >> ELSE <<>>)
+  \o (IF o.red2given THEN << <<"CTE_RED2", Tri(o.red2)>> >> ELSE <<>>)
+  \o (IF o.fp.origin # "archivo" THEN << <<"CTE_LOCALIZACION", Txt(o.fp.param)>> >> ELSE <<>>)
+  \o << <<"CTE_AREAREF", Num(o.area.milli)>>, <<"CTE_KEXP", Num(o.kexp.milli)>> >>
+BlockDrift(e) ==
+  LET al == Allowed(e.cfg) IN
+  IF e.obs.how # "0" \/ ~(\E o \in al : o.exit = 0) \/ ~Has_(e.obs, "oc_block") THEN {}
+  ELSE LET o == CHOOSE o \in al : o.exit = 0
+           want == Recorded(LoadKeys(e.meta_in), Updates(o))
+       IN IF SameBlock(e.obs.oc_block, want) THEN {} ELSE {"emitted_metadata_block_differs_from_specification"}
+
 Judge(e) ==
   LET al == Allowed(e.cfg)
       codes == {o.exit : o \in al}
@@ -56,7 +87,9 @@ Next ==
   /\ l <= Len(Rec)
   /\ LET e == Rec[l]
          bad == Judge(e)
+         dr == BlockDrift(e)
      IN /\ (bad # {} => PrintT(<<"VERDICT", ToJson([prop |-> "C19", case |-> e.case, tag |-> e.tag, clauses |-> bad])>>))
+        /\ (dr # {} => PrintT(<<"DRIFT", ToJson([prop |-> "C19", case |-> e.case, tag |-> e.tag, clauses |-> dr])>>))
         /\ nbad' = nbad + (IF bad = {} THEN 0 ELSE 1)
   /\ l' = l + 1
 Spec == Init /\ [][Next]_vars
